@@ -375,6 +375,14 @@ def rules(rep, m):
                         where=m.rel(loc(c)))
             r4.fail()
 
+    # R-C13-6 ------------------------------------------------------------
+    r6 = rep.rule("R-C13-6", "a waiter that leaves cmb_condition_wait with any code other than success (its own timer with an "
+                  "application-defined code, an interrupt, a cancel) withdraws a condition wake-up that was scheduled for it "
+                  "in the same instant: otherwise the condition 'resumes' a process that is no longer waiting on it (shared "
+                  "with R-C04-1)", floor=1)
+    from . import c04
+    c04.withdraw_rule(rep, r6, m, SIG, only={"cmb_condition_wait"})
+
 
 def compiler_witness(rep, m):
     """Thorough tier: every first-member step used to accept a cast is re-checked by the real compiler as a
@@ -419,6 +427,7 @@ def compiler_witness(rep, m):
     finally:
         import shutil
         shutil.rmtree(d, ignore_errors=True)
+
 
 
 def run(tier="quick"):
